@@ -18,6 +18,18 @@ theorem armed_dispatch (codeLen : Nat) (s : St) (code a sz : Nat) (stmt : Option
   have : ¬ (a ≥ codeLen) := by omega
   simp [endCheck, this]
 
+/-- ... also when the failing instruction belongs to a procedure: control goes to the (module-level) handler, and the error is
+    accounted to the module-level statement whose CALL led into the procedure (`u` lies inside it): RESUME re-executes that
+    statement and RESUME NEXT continues after it (as repaired: the handler ran on the procedure's frame) -/
+theorem armed_dispatch_from_procedure (codeLen : Nat) (s : St) (code a sz u : Nat) (stmt : Option (Nat × Nat))
+    (hi : s.interrupt = false) (ha : s.target = .addr a) (hna : s.active = false) (hlen : a < codeLen) :
+    tick codeLen s (.traps code sz) stmt (some u) =
+      .st { s with pc := a, prevPc := s.pc, active := true, lastTrap := some code, trappedAddr := u } := by
+  unfold tick
+  simp only [hi, Bool.false_eq_true, if_false, trapDispatch, ha, hna]
+  have : ¬ (a ≥ codeLen) := by omega
+  simp [endCheck, this]
+
 /-- ERR distinguishes the error kinds the property names (values of the generated TrapCode table) -/
 theorem err_reports_kind :
     (Gen.trapCodes.lookup "DIVISION_BY_ZERO", Gen.trapCodes.lookup "INVALID_CELL_VALUE",
